@@ -254,3 +254,8 @@ def evaluate(files, jobs=16):
             for m in RESULT_RE.finditer(out):
                 results[int(m.group(1))] = int(m.group(2))
     return results, errors
+
+
+def rop(o):
+    """a call together with the program that runs if it is re-entered (model/ReentryDeep.v)"""
+    return "(RNode %s %s)" % (op(o), lst(rop(x) for x in (o.get("reentry") or [])))
